@@ -210,6 +210,7 @@ func mergeKnobs(parent, k Knobs) Knobs {
 	}
 	k.CacheOnly = k.CacheOnly || parent.CacheOnly
 	k.LazyWake = k.LazyWake || parent.LazyWake
+	k.Quiet = k.Quiet || parent.Quiet
 	return k
 }
 
@@ -659,6 +660,14 @@ func (t *timeline) run() {
 	if p.Knobs.SparseObserve && t.path == "" {
 		w.count("probe_giant_or_long_log_plan")
 	}
+	if p.Knobs.Quiet {
+		if t.path == "" {
+			w.count("quiet_plans_no_observer_after_successful_statements")
+		}
+		if every < 6 {
+			every = 6 + len(p.Stmts)%7
+		}
+	}
 	lastStmt := -1
 	if p.Knobs.CacheOnly {
 		t.unmodelled = true
@@ -956,7 +965,7 @@ func (t *timeline) run() {
 			only := ""
 			if !full {
 				only = s.Table
-				if s.Kind == KCreate || s.Kind == KSelect || only == "" || (p.Knobs.SparseObserve && s.Kind == KInsert) {
+				if s.Kind == KCreate || s.Kind == KSelect || only == "" || (p.Knobs.SparseObserve && s.Kind == KInsert) || p.Knobs.Quiet {
 					only = "-"
 				}
 			}
